@@ -209,3 +209,14 @@ func daysIn(year, month int) int {
 func validDate(y, m, d int) bool {
 	return y >= 1990 && y <= 2089 && m >= 1 && m <= 12 && d >= 1 && d <= daysIn(y, m)
 }
+
+// packOwned returns a copy of d.Pack() and then overwrites the slice Pack handed out: an encoding belongs to the
+// caller, which may do with it as it pleases - a later Pack (of this or any other value) must not be affected.
+func packOwned(d dpt.Datapoint) []byte {
+	enc := d.Pack()
+	cp := append([]byte{}, enc...)
+	for i := range enc {
+		enc[i] = 0xa5
+	}
+	return cp
+}
